@@ -5,7 +5,7 @@ CONSTANTS
     BatchIds = {1, 3}
     Dev = {"MergeTouchesBitmap"}
     FieldBytes <- McFieldBytes
-    NormOf <- McNormOf
+    NormTable <- McNormTable
 VIEW view
 INVARIANT ReuseTransparent
 PROPERTIES SegmentsImmutable BitmapsImmutable
